@@ -28,6 +28,12 @@ def gen_quotes(rng, date, syms, miss=0.3, weird=False):
         ask = bid + rng.choice([0.0, 0.5, 1.0])
         qd = date
         sym = s
+        r = rng.random()
+        if r < 0.04:
+            ask = bid - rng.choice([0.5, 1.0])       # a crossed quote (bid above ask): legal data, nothing forbids it
+        elif r < 0.06:
+            k = rng.choice([2.0 ** -1000, 2.0 ** 900])    # same grid at an extreme magnitude (exact scaling by a power of two)
+            bid, ask = bid * k, ask * k
         if weird and rng.random() < 0.2:
             qd = date + rng.choice([-5, 7])      # quote dated differently from the tick
         if weird and rng.random() < 0.1:
@@ -64,7 +70,7 @@ def gen_uist_order(rng, malformed=False):
 
 def gen_uist_scenario(rng, n_ops=None, malformed=False, batch=None, weird=False):
     ops = []
-    date = 100
+    date = rng.choice([100, 100, 100, -50, -2, 0, 1700000000])     # dates are i64: before, across and far after the epoch
     inserted = 0
     n_ops = n_ops or rng.randint(6, 40)
     if batch:
@@ -185,7 +191,7 @@ def gen_jura_order(rng, malformed=False, grid=GRID):
 
 def gen_jura_scenario(rng, n_ops=None, malformed=False, batch=None):
     ops = []
-    date = 100
+    date = rng.choice([100, 100, 100, -50, -2, 0, 1700000000])     # dates are i64: before, across and far after the epoch
     inserted = 0
     n_ops = n_ops or rng.randint(6, 40)
     syms = [str(a) for a in ASSETS]
